@@ -1083,7 +1083,10 @@ class VariableComputation(DcopComputation):
         VariableComputation.
 
         """
-        value = random.choice(self.variable.domain)
+        # numpy's choice() would return a numpy scalar (not a value of the
+        # domain, and not serializable on the wire): draw an index instead.
+        domain_values = list(self.variable.domain)
+        value = domain_values[random.randint(len(domain_values))]
         self.value_selection(value)
 
     def _on_value_selection(self, val, cost, cycle_count):
